@@ -538,6 +538,56 @@ void restartCycle(bool udp)
     mc_violation("harness-internal", "fd-leak", std::to_string(simk_open_fds()) + " simulated descriptors left open");
 }
 
+// stop() has RETURNED; only then a thread parks in receiveSync with a long timeout (on the closed session: tombstone, must
+// fail at once; on an identifier the transport has never issued: parks), and then the last owner is dropped.  Nothing
+// will ever close that identifier, so only the teardown itself can release the caller: it must do so within a bound
+// that does not depend on the receive timeout (30 s here; bound 2 s of virtual time plus the time T deviations add).
+void stopParkDrop(bool udp, bool unknownSid)
+{
+  mc_label("main:setup");
+  World w;
+  setup(w, udp, true);
+  w.raw->setReadMode(w.sid, ReadMode::Sync);
+  void *implPtr = w.raw->_impl.get();
+  void *engPtr = w.raw->_impl->engine.get();
+  w.raw->stop();
+  mc_obs("stop returned");
+  uint64_t recvReturned = 0;
+  int code = -1;
+  SessionId target = unknownSid ? SessionId(4242) : w.sid;
+  std::thread rd(
+    [&]()
+    {
+      mc_label("A:receiveSync-after-stop");
+      char b[8];
+      size_t n = sizeof b;
+      auto r = w.raw->receiveSync(target, b, n, std::chrono::milliseconds(30000));
+      recvReturned = mc_now_ns();
+      code = r.isOk() ? 0 : int(r.error().code);
+      if (r.isErr() && !definite(r.error().code))
+        mc_violation("definite-result", "receiveSync-code:" + std::to_string(code), "receiveSync returned error code " + std::to_string(code));
+      mc_label("A:done");
+    });
+  mc_quiesce(); // the reader is parked (or has already failed cleanly)
+  mc_label("main:teardown");
+  uint64_t t0 = mc_now_ns(), d0 = mc_deviation_ns();
+  unwatch(w, implPtr, engPtr);
+  w.t.reset();
+  uint64_t t1 = mc_now_ns();
+  w.stopReturnedStep = mc_step();
+  mc_obs("destroyed");
+  rd.join();
+  uint64_t slack = mc_deviation_ns() - d0;
+  const uint64_t bound = 2000000000ull;
+  if (t1 - t0 > bound + slack)
+    mc_violation("bounded-time", "destruction-stranded-behind-parked-receiveSync", "destroying an already stopped transport took " + std::to_string((t1 - t0) / 1000000) + " ms of virtual time while a receiveSync (timeout 30 s) was parked");
+  if (recvReturned > t0 && recvReturned - t0 > bound + slack)
+    mc_violation("bounded-time", "parked-receiveSync-not-released-by-teardown", "a receiveSync parked after stop() returned only " + std::to_string((recvReturned - t0) / 1000000) + " ms after the teardown began (its own timeout: 30 s), code " + std::to_string(code));
+  mc_obs("receiveSync=%d", code);
+  mc_quiesce();
+  finish(w);
+}
+
 const Scn SCN[] = {
   {"tcp_stop_vs_receiveSync", false, OP_RECEIVE_SYNC, OP_NONE, TD_STOP, 2, 3},
   {"tcp_drop_vs_receiveSync", false, OP_RECEIVE_SYNC, OP_NONE, TD_DROP, 2, 3},
@@ -582,6 +632,15 @@ int main(int argc, char **argv)
     m.name = s.name;
     m.body = [s]() { runGeneric(s); };
     bounds(m, s.qP, s.tP);
+    v.push_back(m);
+  }
+  for (int k = 0; k < 3; ++k)
+  {
+    bool udp = k == 2, unknown = k != 1;
+    McScenario m;
+    m.name = std::string(udp ? "udp" : "tcp") + "_stop_park_" + (unknown ? "unknown_id" : "closed_id") + "_then_drop";
+    m.body = [udp, unknown]() { stopParkDrop(udp, unknown); };
+    bounds(m, 1, 2);
     v.push_back(m);
   }
   for (int udp = 0; udp < 2; ++udp)
